@@ -97,6 +97,10 @@ func c08Jobs(tier string, seed int64) []*engine.Job {
 		}
 		jobs = append(jobs, relJob(fmt.Sprintf("c08desc-%d", i), "zzH_C08_desc",
 			map[string]string{"path": "$.." + x, "q": q, "holes": holes, "config": ""}, Path{Depth: 3, Steps: []Step{{Kind: "desc"}}}, tier))
+		for _, sh := range []string{"obj", "arr"} {
+			jobs = append(jobs, relJob(fmt.Sprintf("c08shared-%s-%d", sh, i), "zzH_C08_desc",
+				map[string]string{"path": "$.." + x, "q": q, "holes": holes, "config": "", "shared": sh}, Path{Depth: 2, Steps: []Step{{Kind: "desc"}}}, tier))
+		}
 		jobs = append(jobs, relJob(fmt.Sprintf("c08desc2-%d", i), "zzH_C08",
 			map[string]string{"path": "$.a.." + x, "p": "$.a", "q": "$.." + x, "holes": holes, "config": ""}, Path{Depth: 3, Steps: []Step{{Kind: "desc"}}}, tier))
 	}
@@ -198,6 +202,7 @@ func accPaths(tier string, rng *rand.Rand) []Path {
 	three := samplePaths(pathsWith(sp, func(p Path) bool { return nSteps(p) == 3 }), tierN(tier, 100, 2000), rng)
 	fn := samplePaths(funcPaths(tier, rng), tierN(tier, 250, 3000), rng)
 	fl := samplePaths(filterPaths(tier, rng), tierN(tier, 100, 2000), rng)
+	fn = append(fn, funcFilterPaths()...)
 	return dedupPaths(append(append(append(append(one2, three...), fn...), fl...), nestedFilterPaths()...))
 }
 
